@@ -221,11 +221,16 @@ theorem constraintName_nonword {tk : Tok} (h : ∀ w, tk ≠ .word w) (tl : List
   rw [parseFuel_succ]
   cases tk <;> first | exact absurd rfl (h _) | simp [optVariable]
 
+theorem constraintName_single (w : String) : constraintName [.word w] = .ok (none, [.word w]) := by
+  unfold constraintName nameAt
+  rw [parseFuel_succ]
+  by_cases hk : isKeyword w = true <;> simp [optVariable, hk, CName.ofExp]
+
 /-- a constraint name is not mistaken where there is none: behind the variable an expression may begin with, no `:`
 follows -/
-theorem constraintName_none {t : PExp} {ts : List Tok} {items : List Item} (hk : Tk t ts items) {x : Tok} {tail : List Tok}
-    (hx : x ≠ .colon) (hxu : x ≠ .us) :
-    constraintName (ts ++ x :: tail) = .ok (none, ts ++ x :: tail) := by
+theorem constraintName_none' {t : PExp} {ts : List Tok} {items : List Item} (hk : Tk t ts items) {rest : List Tok}
+    (hx : ∀ tl, rest ≠ .colon :: tl) (hxu : ∀ tl, rest ≠ .us :: tl) :
+    constraintName (ts ++ rest) = .ok (none, ts ++ rest) := by
   obtain ⟨tk, tl, hts, hs⟩ := tk_head hk
   have hnc := tk_no_colon hk
   -- the first token decides
@@ -234,7 +239,10 @@ theorem constraintName_none {t : PExp} {ts : List Tok} {items : List Item} (hk :
     cases tl with
     | nil =>
       subst hts
-      exact constraintName_word w x tail hx hxu
+      cases rest with
+      | nil => exact constraintName_single w
+      | cons x tail =>
+        exact constraintName_word w x tail (fun e => hx tail (by rw [e])) (fun e => hxu tail (by rw [e]))
     | cons t2 tl2 =>
       subst hts
       have h2 : t2 ≠ .colon := by intro e; subst e; simp at hnc
@@ -242,16 +250,20 @@ theorem constraintName_none {t : PExp} {ts : List Tok} {items : List Item} (hk :
       · subst hu
         obtain ⟨e, es, its, ts', hi, hL, hop⟩ := tk_head_cvar hk w tl2 rfl
         rw [hL, List.append_assoc]
-        have hru : ∀ tl, ts' ++ x :: tail ≠ .us :: tl := by
+        have hru : ∀ tl, ts' ++ rest ≠ .us :: tl := by
           rcases hop with rfl | ⟨tk', tl', o', rfl, hm'⟩
-          · intro tl e; injection e with e _; exact hxu e
+          · intro tl e; exact hxu tl (by simpa using e)
           · intro tl e; injection e with e _; exact (binTok_ne hm').2 e
-        have := nameAt_compound (n := w) hi (ts' ++ x :: tail) hru
+        have := nameAt_compound (n := w) hi (ts' ++ rest) hru
         unfold constraintName
         simp only [List.cons_append] at this ⊢
         rw [this]
         rcases hop with rfl | ⟨tk', tl', o', rfl, hm'⟩
-        · cases x <;> first | exact absurd rfl hx | rfl
+        · cases rest with
+          | nil => rfl
+          | cons x tail =>
+            have hxc : x ≠ .colon := fun e => hx tail (by rw [e])
+            cases x <;> first | exact absurd rfl hxc | rfl
         · have := (binTok_ne hm').1
           cases tk' <;> first | exact absurd rfl this | rfl
       · exact constraintName_word w t2 _ h2 hu
@@ -263,6 +275,11 @@ theorem constraintName_none {t : PExp} {ts : List Tok} {items : List Item} (hk :
   | lbrack => subst hts; exact constraintName_nonword (by intro w e; cases e) _
   | str s => subst hts; exact constraintName_nonword (by intro w e; cases e) _
   | _ => cases hs
+
+theorem constraintName_none {t : PExp} {ts : List Tok} {items : List Item} (hk : Tk t ts items) {x : Tok} {tail : List Tok}
+    (hx : x ≠ .colon) (hxu : x ≠ .us) :
+    constraintName (ts ++ x :: tail) = .ok (none, ts ++ x :: tail) :=
+  constraintName_none' hk (by intro tl e; injection e with e _; exact hx e) (by intro tl e; injection e with e _; exact hxu e)
 
 /-! ### `for` iterations behind a constraint / a declaration -/
 
@@ -1148,5 +1165,87 @@ theorem coreProgram_wf (m : PModel) (h : coreProgram m = true) : WFpx m := by
 decidable predicate `printable`, the parser model reads the printed tokens back as the same program. -/
 theorem parse_format_printable (m : PModel) (h : printable m = true) : parseProgram (progToks m) = .ok m :=
   parseProgram_fmt m (coreProgram_wf m h)
+
+/-! ### comparison chains -/
+
+theorem expAt_cmp (c : Cmp) (r : List Tok) : expAt (cmpTok c :: r) = .error .reject := by
+  have hf : parseFuel (cmpTok c :: r) = (6 * r.length + 13) + 3 := by simp [parseFuel]; omega
+  have hu : optUnary (cmpTok c :: r) = ([], cmpTok c :: r) :=
+    optUnary_plain (by cases c <;> simp [unRule, ruleOfTok, Tok.opSpelling, cmpTok]) r
+  have hl : leaf (6 * r.length + 13 + 1) (cmpTok c :: r) = .error .reject := by cases c <;> simp [leaf, cmpTok]
+  simp only [expAt, hf, parseExp, collect, hu, hl]
+
+/-- **A comparison chain is not a constraint**: `a <= b <= c` (any comparisons) makes the program invalid. -/
+theorem comparison_chain_rejected {a b c : PExp} (ha : WFx a) (hb : WFx b) (hc : WFx c) (c1 c2 : Cmp) :
+    parseProgram (.word "solve" :: .nl :: .st :: .nl ::
+      (fmtToks a ++ cmpTok c1 :: (fmtToks b ++ cmpTok c2 :: (fmtToks c ++ [.nl])))) = .error .reject := by
+  obtain ⟨items, hka, _⟩ := fmt_tk a ha
+  have hname := constraintName_none hka (x := cmpTok c1) (tail := fmtToks b ++ cmpTok c2 :: (fmtToks c ++ [.nl]))
+    (by cases c1 <;> simp [cmpTok]) (by cases c1 <;> simp [cmpTok])
+  have hnf : ¬ ForLike (cmpTok c2 :: (fmtToks c ++ [.nl])) := by
+    rintro ⟨w, r, heq, _⟩
+    cases c2 <;> simp [cmpTok, skipNl] at heq
+  have hfirst : parseConstraint (fmtToks a ++ cmpTok c1 :: (fmtToks b ++ cmpTok c2 :: (fmtToks c ++ [.nl]))) =
+      .ok ({ name := none, lhs := a, cmp := c1, rhs := b, logic := false, iterVars := [], iters := [] },
+           cmpTok c2 :: (fmtToks c ++ [.nl])) := by
+    unfold parseConstraint
+    rw [hname]
+    simp only
+    unfold constraintBody
+    rw [expAt_fmt ha (closed_cmp c1 _)]
+    simp only [cmpOfTok_cmpTok]
+    rw [expAt_fmt hb (closed_cmp c2 _)]
+    simp only [optFor_none hnf]
+  have hsecond : parseConstraint (cmpTok c2 :: (fmtToks c ++ [.nl])) = .error .reject := by
+    have hn : constraintName (cmpTok c2 :: (fmtToks c ++ [.nl])) = .ok (none, cmpTok c2 :: (fmtToks c ++ [.nl])) :=
+      constraintName_nonword (by intro w e; cases c2 <;> cases e) _
+    unfold parseConstraint
+    rw [hn]
+    simp only
+    unfold constraintBody
+    rw [expAt_cmp]
+  have hsk1 : skipNl (fmtToks a ++ cmpTok c1 :: (fmtToks b ++ cmpTok c2 :: (fmtToks c ++ [.nl]))) = _ := skipNl_fmt ha _
+  have hsk2 : skipNl (cmpTok c2 :: (fmtToks c ++ [.nl])) = cmpTok c2 :: (fmtToks c ++ [.nl]) := by cases c2 <;> rfl
+  have hneed : needNl (cmpTok c2 :: (fmtToks c ++ [.nl])) = none := by cases c2 <;> rfl
+  have hlen : ∃ k, (fmtToks a ++ cmpTok c1 :: (fmtToks b ++ cmpTok c2 :: (fmtToks c ++ [.nl]))).length + 1 = k + 2 :=
+    ⟨(fmtToks a).length + ((fmtToks b).length + ((fmtToks c).length + 1) + 1), by simp; omega⟩
+  obtain ⟨k, hk⟩ := hlen
+  have hcs : parseConstraints (k + 2) (fmtToks a ++ cmpTok c1 :: (fmtToks b ++ cmpTok c2 :: (fmtToks c ++ [.nl]))) [] =
+      .ok ([{ name := none, lhs := a, cmp := c1, rhs := b, logic := false, iterVars := [], iters := [] }],
+           cmpTok c2 :: (fmtToks c ++ [.nl])) := by
+    simp only [parseConstraints, hsk1, hfirst, hsk2, hsecond]
+    simp
+  have hdecl : ∀ obj cs, parseDecls (cmpTok c2 :: (fmtToks c ++ [.nl])) obj cs = .error .reject := by
+    intro obj cs
+    simp only [parseDecls, parseDefineEnd, hneed, hsk2]
+  have h1 : (lowerWord "solve" == "min") = false := by decide
+  have h2 : (lowerWord "solve" == "max") = false := by decide
+  have h3 : (lowerWord "solve" == "solve") = true := by decide
+  unfold parseProgram parseProgramRaw
+  simp only [skipNl, parseObjective, needNl, hsk1, h1, h2, h3, Bool.or_self, Bool.false_eq_true, if_false, if_true, hk, hcs, hdecl]
+
+/-! ### helpers kept for the users of the parser model (C12: `Proofs/DisplayParse.lean`) -/
+
+/-- tokens an expression is written with (no NEWLINE, `:`, comparison, `s.t.`) -/
+def isExprTok : Tok → Bool
+  | .nl | .colon | .le | .ge | .eq | .lt | .gt | .st => false
+  | _ => true
+
+theorem binKwTok_expr (o : BinOp) : isExprTok (binKwTok o) = true := by cases o <;> rfl
+theorem unKwTok_expr (u : UnOp) : isExprTok (unKwTok u) = true := by cases u <;> rfl
+
+theorem mem_paren_expr {xs : List Tok} (h : ∀ tk ∈ xs, isExprTok tk = true) : ∀ tk ∈ parenToks xs, isExprTok tk = true := by
+  intro tk htk
+  rcases List.mem_cons.mp htk with rfl | htk
+  · rfl
+  · rcases List.mem_append.mp htk with htk | htk
+    · exact h tk htk
+    · simp at htk; subst htk; rfl
+
+theorem skipNl_expr {tk : Tok} (h : isExprTok tk = true) (tl : List Tok) : skipNl (tk :: tl) = tk :: tl := by
+  cases tk <;> simp [isExprTok] at h <;> rfl
+
+/-- a constraint without iteration at the end of the text -/
+theorem optFor_nil : optFor [] = .ok (([], []), []) := rfl
 
 end Rooc.Syntax.Proofs
